@@ -32,6 +32,7 @@ theorem protoStep_inv {x : Option Nat} {w : World} (h : WInvX x w) (w' : World) 
     (hplo : ∀ t, Pending w' t (.pingLoop p) → ∃ l, npr.pingTimer = some l ∧ l.call = some t)
     (hcing : npr.state = .connecting → ∃ cr c, npr.connReq = some cr ∧ w.connReqs.get? cr = some c ∧
       ∀ d, c.dfd = some d → d ∉ w.fired ∧ Pending w c.alarm (.connack cr))
+    (hcrl : ∀ cr c d, npr.connReq = some cr → w.connReqs.get? cr = some c → c.dfd = some d → d ∉ w.fired)
     (hbuf : Bytes.WF npr.buffer) : WInvX x w' := by
   have hreq := req_of_reqs hr
   have hid' : ∀ e, idOf w' e = idOf w e := by intro e; simp [idOf, hreq]
@@ -119,6 +120,10 @@ theorem protoStep_inv {x : Option Nat} {w : World} (h : WInvX x w) (w' : World) 
       | false => rfl
       | true => exact absurd hpd ((hdead hl).1 t rid)
     · exact ⟨qr, by simp [hqp, a], b⟩
+  case connReqLive =>
+    rw [hc, hf]; simp only [hprot]
+    have := h.connReqLive
+    grind
   case subArmed =>
     rw [he]; simp only [hreq, hprot]
     intro e he' hb ha
@@ -246,6 +251,7 @@ theorem pingOff_inv {x : Option Nat} {w : World} (h : WInvX x w) (p : Nat) (ppr 
     rw [hpp] at a; injection a with a; subst a
     exact ⟨l, b, c⟩
   · intro hs'; exact h.connecting p ppr hpp hs'
+  · intro cr c d hcq; exact h.connReqLive p ppr cr c d hpp hcq
   · exact h.bufOk p ppr hpp
 
 /-- MQTTBaseProtocol.handlePINGRESP -/
